@@ -918,7 +918,7 @@ int main(int argc, char** argv) {
   if (strstr(sk, "mem")) sinks[nsinks++] = SK_MEM;
 
   pairsep_cap = (int)vf_param_i("pairsepvals", 6);
-  PCT_STRICT = vf_param_is("pctscan", "strict", "default");
+  PCT_STRICT = vf_param_is("pctscan", "strict", "strict")   /* judged completely since fix c20ecda (pctscan=lenient restores the old leniency) */;
   build_ints(full); build_floats(full);
   build_strings((int)vf_param_i("strlen", 3), (int)vf_param_i("pairlen", 1));
 
